@@ -33,6 +33,21 @@ CLAIMED = {
  "C17": dict(cat="exploration", tech="runtime monitoring: recognizer monitor (independent strict recursive-descent recognizer with static rules run side by side with bcl.Parse on sentences and every single-token edit)",
    text="All token sequences of length <= 2, generated sentences with every single-token deletion/transposition/insertion/replacement over a 55-token vocabulary, random sequences and two-fault programs: accept/reject must agree with the recognizer, the first diagnostic must sit at the first non-viable token, Interpret must return no results on rejection, err != nil iff a diagnostic was written, and a later faulty statement must get its own diagnostic.",
    note="Trusted: the grammar of DESIGN §5.2 (pre-validated on 58M sequences); the unspecified 'not'-operand zone gives no verdict.", ref="§6 C17"),
+ "C07": dict(cat="exploration", tech="runtime monitoring: metamorphic monitor (ParseFile under scripted readers vs Parse on the same bytes: error, diagnostics, Dump bytes), every 2-partition and page-boundary sweeps",
+   text="For hand-picked inputs (every lexical-failure kind, multi-byte characters everywhere, two-character operators, escapes), the repository's testdata and generated programs under hostile layout: every 2-partition of inputs up to 400 bytes, one-byte reads, random partitions, zero-byte reads at every step position and offset, data with EOF, and the real 4096-byte page boundary swept across the tokens; error text, diagnostics and dump bytes must equal the whole-input parse.",
+   note="Trusted: Parse on the whole input as reference. A hang is identified as a deadlock from goroutine dumps by the per-case watchdog.", ref="§6 C07"),
+ "C08": dict(cat="exploration", tech="runtime monitoring: position monitor (decode check with an independent newline index + prediction from recognizer/reference model/renderer spans + line-table and positions-section invariants)",
+   text="Every diagnostic is decoded back to a byte offset and checked against the source (newline count, quoted token text, at end); first compile diagnostics, runtime errors and warnings are predicted from the independent recognizer/evaluator and the renderer's token spans; the line table must equal the source's newline offsets; all of it again under chunked parsing and after dump and load, with sources padded across the read page and each varint class.",
+   note="Trusted: the location rule of DESIGN §5.4.", ref="§6 C08"),
+ "C11": dict(cat="exploration", tech="runtime monitoring: resource/termination monitor on scripted readers (close/read counters, goroutine-dump leak and deadlock identification, seeded perturbation through the verifPoint hook, bounded logical progress)",
+   text="All reader scripts of up to 5 steps over 8 step kinds (37448; up to 4 steps in the quick tier) and random longer ones, paired with 10 input classes and three entry points, under delays in Read/Close/log writer and perturbation at the pipeline's suspension points: the call must return, Close must be called exactly once, no Read after Close, at most 4 data reads after a delivered lexical failure, bounded Read calls, no goroutine left blocked, a delivered read error returned.",
+   note="Schedules are sampled (distinct interleaving signatures are reported), not enumerated. Verdicts are logical (counters, goroutine states); wall-clock only triggers inspection.", ref="§6 C11"),
+ "C12": dict(cat="exploration", tech="runtime monitoring: Go race detector (-race build, reports counted from GORACE log files and deduplicated) + result-equality monitor for concurrent callers and a shared Prog",
+   text="The pipeline is driven on many-error, valid and early-failure inputs in 1..64-byte chunks with perturbation so that diagnostics are formatted while the lexer updates the line table (overlap is confirmed from the event log); batches of 2/8/32 concurrent callers and 2/8/32 goroutines executing one shared Prog are compared with sequential results; any race report with a library frame is a violation.",
+   note="Absence of reports holds for the executions run under the detector only.", ref="§6 C12"),
+ "C20": dict(cat="exploration", tech="runtime monitoring: metamorphic monitor (canonical rendering vs hostile re-renderings of the same token sequence / AST: code, constants, results, diagnostic classes)",
+   text="Each program is rendered canonically and 6-10 hostile ways (all separator kinds incl. none where legal, comments with arbitrary bytes ended by CR/LF/EOF, optional ';' toggled, redundant parentheses anywhere); instructions, constants, output, blocks, binding, error and diagnostic classes must be identical; string literals full of layout characters must reach the value byte for byte.",
+   note="Whole-input parsing; the separator-needed predicate is derived from the token definitions, conservatively.", ref="§6 C20"),
 }
 
 NOT_YET = {}
